@@ -143,6 +143,7 @@ def check_call(key, fn, args, kwargs, strict_pre=True):
         if not ev(code, env):
             raise PreconditionFailed(key, r)
     raise_conds = {exc: ev(compile_clause(cond)[0], env) for exc, cond in c.raises.items()}
+    may_conds = {exc: ev(compile_clause(cond)[0], env) for exc, cond in c.may_raise.items()}
     # snapshots for old(...)
     case_data = []
     for case in c.cases:
@@ -166,6 +167,9 @@ def check_call(key, fn, args, kwargs, strict_pre=True):
                     ok = True
                 else:
                     raise ContractViolation(key, "raises-when-not-allowed", f"{exc} only when {c.raises[exc]}", f"got {name}: {e}") from e
+        for exc, cond in may_conds.items():
+            if cond and any(t.__name__ == exc for t in type(e).__mro__):
+                ok = True
         if not ok:
             raise ContractViolation(key, "unexpected-exception", name, str(e)) from e
         raise
